@@ -68,8 +68,8 @@ func (pass *PrefixObjectNames) processStruct(visitor *Visitor, schema *ast.Schem
 		}
 	}
 
-	if structDef.HasHint(ast.HintDiscriminatedDisjunctionOfRefs) {
-		disjunction := structDef.Hints[ast.HintDiscriminatedDisjunctionOfRefs].(ast.DisjunctionType)
+	// hints can be set by users: the value isn't necessarily a disjunction
+	if disjunction, ok := structDef.Hints[ast.HintDiscriminatedDisjunctionOfRefs].(ast.DisjunctionType); ok {
 		disjunction.DiscriminatorMapping = pass.processDisjunctionMapping(disjunction.DiscriminatorMapping)
 		structDef.Hints[ast.HintDiscriminatedDisjunctionOfRefs] = disjunction
 		structDef.AddToPassesTrail(fmt.Sprintf("PrefixObjectNames[prefix=%s]", pass.Prefix))
